@@ -57,6 +57,15 @@
   call timer fires in `Realm.advance`: one ERROR timeout appended      C02_realm_timeout
   … never in a tick that ends before the deadline                      C02_realm_timeout_not_before
 
+  the whole episode of a call incl. later chunks: progress* final?     C02_episode, C02_episode_from_call,
+    and nothing after the final until a NEW call re-uses the id          C02_nothing_after_final_chunks
+  every pending call goes back to a CALL step of its caller            C02_pending_was_called
+  a CALL the Authorizer refuses is answered by the handler, the        C02_realm_call_denied
+    dealer never sees it
+  … so a refused LATER CHUNK of a pending progressive call gives the   C02_realm_one_final_full (def),
+    caller an ERROR while the call lives on: TWO final replies for       C02_realm_one_final_full_fails
+    one request id at realm level (finding; not a dealer step)
+
   "keeps reading" is the hypothesis `env.full caller = false` where a RESULT is to be delivered by
   `syncYield` (the only place where the dealer itself looks at the caller's queue).  ERROR replies are
   handed to the realm's `trySend`, which drops a message for a full queue (`C02_full_dropped_at_realm`).
@@ -72,6 +81,8 @@
 import Nexus.L2.Proofs.DealerReply
 import Nexus.L2.Proofs.DealerExamples
 import Nexus.L2.Proofs.DealerRealmRpc
+import Nexus.L2.Proofs.DealerOrder
+import Nexus.L2.Proofs.RealmAuthz
 
 namespace Nexus.C02
 open Nexus.L2 Nexus.Gen.N Nexus
@@ -127,6 +138,132 @@ theorem C02_nothing_after_final {s s' : DState} {tr : List (DState × DOut)} (c 
       | cons x xs =>
         exact absurd ((st.replyOK h c).known (by simp [hr])) (fun hx => hx.elim hc hno0)
     · exact h1 p hp
+
+/-- … the same with later chunks allowed: once `c` is not pending nothing is sent for that request as long as no NEW
+    call with that id is made (a CALL step for `c` in a state where `c` is not pending). -/
+theorem C02_nothing_after_final_chunks {s s' : DState} {tr : List (DState × DOut)} (c : ReqId) (run : Run s tr s') :
+    DealerInv s → c ∉ s.d.calls → (∀ p ∈ tr, IsCallStep p.1 p.2 c → c ∈ p.1.d.calls) →
+    (∀ p ∈ tr, repliesFor c p.2.sends = []) ∧ c ∉ s'.d.calls ∧ DealerInv s' := by
+  induction run with
+  | nil s => intro h hc _; exact ⟨by simp, hc, h⟩
+  | @cons s o tr s' st _ ih =>
+    intro h hc hno
+    have hno0 : ¬ IsCallStep s o c := fun hx => hc (hno (s, o) (List.mem_cons_self ..) hx)
+    have hc' : c ∉ o.st.d.calls := fun hx => (st.calls_sub h c hx).elim hc hno0
+    obtain ⟨h1, h2, h3⟩ := ih (st.inv h) hc' (fun p hp => hno p (List.mem_cons_of_mem _ hp))
+    refine ⟨?_, h2, h3⟩
+    intro p hp
+    rcases List.mem_cons.1 hp with rfl | hp
+    · cases hr : repliesFor c o.sends with
+      | nil => rfl
+      | cons x xs =>
+        exact absurd ((st.replyOK h c).known (by simp [hr])) (fun hx => hx.elim hc hno0)
+    · exact h1 p hp
+
+/-- THE EPISODE OF ONE CALL (later chunks included).  Over any run in which every CALL step carrying the id `c` is a
+    later chunk of the pending call `c` (no NEW call re-uses the id), whatever the callee, the caller and bystanders
+    do in between: the replies sent for `c` are a list of progressive RESULTs followed by at most one final reply,
+    and with the final reply the call is gone at the end of the run.  (`C08_progress_order` is the special case
+    without later chunks.) -/
+theorem C02_episode {s s' : DState} {tr : List (DState × DOut)} (c : ReqId) (run : Run s tr s') :
+    DealerInv s → (∀ p ∈ tr, IsCallStep p.1 p.2 c → c ∈ p.1.d.calls) →
+    ∃ ps f, replyStream c tr = ps ++ f ∧ (∀ x ∈ ps, x.msg.isFinalReply = false) ∧
+      (f = [] ∨ ∃ x, f = [x] ∧ x.msg.isFinalReply = true ∧ c ∉ s'.d.calls) := by
+  induction run with
+  | nil s => intro _ _; exact ⟨[], [], rfl, by simp, Or.inl rfl⟩
+  | @cons s o tr s' st rest ih =>
+    intro h hno
+    have hno' : ∀ p ∈ tr, IsCallStep p.1 p.2 c → c ∈ p.1.d.calls := fun p hp => hno p (List.mem_cons_of_mem _ hp)
+    have hr := st.replyOK h c
+    rw [replyStream_cons]
+    match hrep : repliesFor c o.sends with
+    | [] =>
+      obtain ⟨ps, f, h1, h2, h3⟩ := ih (st.inv h) hno'
+      exact ⟨ps, f, by simpa using h1, h2, h3⟩
+    | [x] =>
+      cases hf : x.msg.isFinalReply with
+      | true =>
+        have hgone : c ∉ o.st.d.calls := hr.final (by simp [finalsFor, hrep, hf])
+        obtain ⟨hnone, hc', _⟩ := C02_nothing_after_final_chunks c rest (st.inv h) hgone hno'
+        have hempty : replyStream c tr = [] := by
+          unfold replyStream
+          rw [List.flatMap_eq_nil_iff]
+          exact hnone
+        exact ⟨[], [x], by simp [hempty], by simp, Or.inr ⟨x, rfl, hf, hc'⟩⟩
+      | false =>
+        obtain ⟨ps, f, h1, h2, h3⟩ := ih (st.inv h) hno'
+        refine ⟨x :: ps, f, by simp [h1], ?_, h3⟩
+        intro y hy
+        rcases List.mem_cons.1 hy with rfl | hy
+        · exact hf
+        · exact h2 y hy
+    | _ :: _ :: _ =>
+      have := hr.one
+      rw [hrep] at this
+      simp at this
+
+/-- … starting WITH the CALL that opens the call: the first step may be any step (in particular the first chunk of
+    `c`, when `c` is not pending yet); all later CALL steps with that id must be chunks of the pending call. -/
+theorem C02_episode_from_call {s s' : DState} {o : DOut} {tr : List (DState × DOut)} (c : ReqId)
+    (run : Run s ((s, o) :: tr) s') (h : DealerInv s)
+    (hno : ∀ p ∈ tr, IsCallStep p.1 p.2 c → c ∈ p.1.d.calls) :
+    ∃ ps f, replyStream c ((s, o) :: tr) = ps ++ f ∧ (∀ x ∈ ps, x.msg.isFinalReply = false) ∧
+      (f = [] ∨ ∃ x, f = [x] ∧ x.msg.isFinalReply = true ∧ c ∉ s'.d.calls) := by
+  obtain ⟨_, st, rest⟩ := Run.head run
+  have hr := st.replyOK h c
+  rw [replyStream_cons]
+  match hrep : repliesFor c o.sends with
+  | [] =>
+    obtain ⟨ps, f, h1, h2, h3⟩ := C02_episode c rest (st.inv h) hno
+    exact ⟨ps, f, by simpa using h1, h2, h3⟩
+  | [x] =>
+    cases hf : x.msg.isFinalReply with
+    | true =>
+      have hgone : c ∉ o.st.d.calls := hr.final (by simp [finalsFor, hrep, hf])
+      obtain ⟨hnone, hc', _⟩ := C02_nothing_after_final_chunks c rest (st.inv h) hgone hno
+      have hempty : replyStream c tr = [] := by
+        unfold replyStream
+        rw [List.flatMap_eq_nil_iff]
+        exact hnone
+      exact ⟨[], [x], by simp [hempty], by simp, Or.inr ⟨x, rfl, hf, hc'⟩⟩
+    | false =>
+      obtain ⟨ps, f, h1, h2, h3⟩ := C02_episode c rest (st.inv h) hno
+      refine ⟨x :: ps, f, by simp [h1], ?_, h3⟩
+      intro y hy
+      rcases List.mem_cons.1 hy with rfl | hy
+      · exact hf
+      · exact h2 y hy
+  | _ :: _ :: _ =>
+    have := hr.one
+    rw [hrep] at this
+    simp at this
+
+/-- the hypotheses are met: the first chunk of the progressive call (2, 7) (state `Ex.sReg` → `Ex.sProg`), then a
+    later chunk — a CALL step for (2, 7) in a state where it is pending -/
+example : Run Ex.sReg [(Ex.sReg, syncCall Ex.env Ex.sReg 2 7 [(OptProgress, .bool true)] "p" [] [] 0),
+      (Ex.sProg, syncCall Ex.env Ex.sProg 2 7 [] "p" [] [] 0)]
+      (syncCall Ex.env Ex.sProg 2 7 [] "p" [] [] 0).st ∧ (⟨2, 7⟩ : ReqId) ∈ Ex.sProg.d.calls :=
+  ⟨.cons (.call ..) (.cons (.call ..) (.nil _)), by decide +kernel⟩
+
+/-- A REPLY ONLY FOR A REQUEST THAT WAS ISSUED (run form of `C02_no_foreign_reply`).  If `c` is not pending at the start
+    of a run and pending at its end, the run contains a CALL step by session `c.sess` with request id `c.req` that
+    found `c` not pending and recorded it.  So every pending call — and hence (`C02_no_foreign_reply`) every reply —
+    goes back to a CALL message its caller has sent. -/
+theorem C02_pending_was_called {s s' : DState} {tr : List (DState × DOut)} (c : ReqId) (run : Run s tr s') :
+    DealerInv s → c ∉ s.d.calls → c ∈ s'.d.calls →
+    ∃ p ∈ tr, IsCallStep p.1 p.2 c ∧ c ∉ p.1.d.calls ∧ c ∈ p.2.st.d.calls := by
+  induction run with
+  | nil s => intro _ hc hc'; exact absurd hc' hc
+  | @cons s o tr s' st _ ih =>
+    intro h hc hc'
+    by_cases hmid : c ∈ o.st.d.calls
+    · rcases st.calls_sub h c hmid with hx | hx
+      · exact absurd hx hc
+      · exact ⟨(s, o), List.mem_cons_self .., hx, hc, hmid⟩
+    · obtain ⟨p, hp, hq⟩ := ih (st.inv h) hmid hc'
+      exact ⟨p, List.mem_cons_of_mem _ hp, hq⟩
+
+example : (⟨2, 5⟩ : ReqId) ∉ Ex.sReg.d.calls ∧ (⟨2, 5⟩ : ReqId) ∈ Ex.sCall.d.calls := by decide +kernel
 
 /-- A progressive RESULT for `c` is emitted only while `c` is pending, and leaves it pending: progressive
     results come before the final reply only. -/
@@ -424,6 +561,123 @@ theorem C02_realm_timeout_not_before {target : Nat} {r r' : Realm} {evs : List (
     (h : Realm.Adv target r evs r') (t : Timer) (hlt : target < t.deadline) : ∀ p ∈ evs, p.2 ≠ .timer t := by
   intro p hp he
   have := (h.fired p hp t he).2.2.1
+  omega
+
+/-! ### "cannot be routed" at the handler: a CALL the Authorizer refuses -/
+
+/-- the ERROR `authzMessage` answers a refused CALL with -/
+def deniedCallErr (dec : String) (req : Nat) : Msg :=
+  if dec == "fail" then .error tCALL req [] ErrAuthorizationFailed [.str "<text>"] []
+  else .error tCALL req [] ErrNotAuthorized [] []
+
+/-- A CALL REFUSED BY THE AUTHORIZER never reaches the dealer: the handler answers it itself (realm.go
+    `authzMessage`).  For an attached client `c` that is subject to authorization and whose CALL the rule table does
+    not allow: the dealer state is untouched; exactly one message is appended to the caller's queue if it has room
+    (none if it is full) — ERROR(CALL, req, wamp.error.not_authorized), or wamp.error.authorization_failed with one
+    argument when the Authorizer failed — which has the form of a final reply for that request; no other queue changes. -/
+theorem C02_realm_call_denied (r : Realm) (rules : List AuthzRule) (s c : Session) (req : Nat) (opts : Dict)
+    (proc : String) (args : List WVal) (kw : Dict)
+    (hcfg : r.cfg.authz = some rules) (hex : Realm.exempt r.cfg.localAuthz s = false)
+    (hdec : ¬ (Realm.authzDecision rules s.key (.call req opts proc args kw) = "allow" ∨
+      Realm.authzDecision rules s.key (.call req opts proc args kw) = "allowerr"))
+    (hc : r.clients.find? (fun c => c.key == s.key) = some c) :
+    (Realm.handleMsg r s (.call req opts proc args kw)).ds = r.ds ∧
+    (Realm.handleMsg r s (.call req opts proc args kw)).dqueueOf s.key =
+      (if r.queueLen s.key ≥ c.cap then r.dqueueOf s.key
+       else r.dqueueOf s.key ++ [deniedCallErr (Realm.authzDecision rules s.key (.call req opts proc args kw)) req]) ∧
+    (∀ k, k ≠ s.key → (Realm.handleMsg r s (.call req opts proc args kw)).dqueueOf k = r.dqueueOf k) ∧
+    (deniedCallErr (Realm.authzDecision rules s.key (.call req opts proc args kw)) req).replyReq = some req ∧
+    (deniedCallErr (Realm.authzDecision rules s.key (.call req opts proc args kw)) req).isFinalReply = true := by
+  have hk : s.key ≠ metaKey := by
+    intro e
+    have : Realm.exempt r.cfg.localAuthz s = true := by simp [Realm.exempt, e]
+    rw [this] at hex; cases hex
+  have hden : Realm.denialReply (Realm.authzDecision rules s.key (.call req opts proc args kw)) (.call req opts proc args kw) =
+      some (deniedCallErr (Realm.authzDecision rules s.key (.call req opts proc args kw)) req) := by
+    unfold Realm.denialReply deniedCallErr
+    simp only [Bool.false_eq_true, if_false]
+    rfl
+  rw [Realm.handleMsg_eq_handleMsgG, hcfg, Option.map_some, Realm.handleMsgG_refused _ _ r s _ hex hdec, hden]
+  refine ⟨Realm.trySend_ds _ _, ?_, ?_, ?_, ?_⟩
+  · exact Realm.dtrySend_queueOf_self r ⟨s.key, _⟩ hk hc
+  · intro k hne
+    exact Realm.dtrySend_queueOf_other r ⟨s.key, _⟩ (fun e => hne e.symm)
+  · unfold deniedCallErr; split <;> rfl
+  · unfold deniedCallErr; split <;> rfl
+
+/-- a realm whose Authorizer denies CALLs to "q" -/
+def Ex.cfgDenyQ : Config := { authz := some [{ typ := 48, uri := "q", sess := none, decision := "deny" }] }
+
+/-- the hypotheses of `C02_realm_call_denied` are met by the remote session 5 calling "q" in such a realm -/
+example :
+    let s5 : Session := { key := 5, details := [], roles := [], isLocal := false }
+    let r : Realm := { cfg := Ex.cfgDenyQ, clients := [s5], queues := [(5, [])] }
+    r.cfg.authz = some [{ typ := 48, uri := "q", sess := none, decision := "deny" }] ∧
+    Realm.exempt r.cfg.localAuthz s5 = false ∧
+    Realm.authzDecision [{ typ := 48, uri := "q", sess := none, decision := "deny" }] 5 (.call 1 [] "q" [] []) = "deny" ∧
+    (r.clients.find? (fun c => c.key == s5.key)).isSome = true := by
+  intro s5 r
+  exact ⟨rfl, by decide +kernel, by decide +kernel, by decide +kernel⟩
+
+def Ex.runObs (r : Realm) : List Realm.Op → List Realm.Observed × Realm
+  | [] => ([], r)
+  | op :: ops => ((r.step op).1 :: (Ex.runObs (r.step op).2 ops).1, (Ex.runObs (r.step op).2 ops).2)
+
+/-- the final replies for request `req` session `k` reads over a history -/
+def finalsSeen (obs : List Realm.Observed) (k : SessKey) (req : Nat) : List Msg :=
+  (obs.flatMap (fun o => (o.out.filter (fun q => q.1 == k)).flatMap (·.2))).filter
+    (fun m => m.replyReq == some req && m.isFinalReply)
+
+/-- the `progress` flags of the CALL messages session `k` sends with request id `req`, in order -/
+def chunkFlags (ops : List Realm.Op) (k : SessKey) (req : Nat) : List Bool :=
+  ops.filterMap (fun op => match op with
+    | .msg k' (.call q opts _ _ _) => if k' = k ∧ q = req then some (opts.optFlag OptProgress) else none
+    | _ => none)
+
+/-- the request id is used for ONE call: all its CALL messages but the last carry `progress: true` -/
+def OneCall (flags : List Bool) : Prop := ∀ i, i + 1 < flags.length → flags[i]! = true
+
+/-- full strength at realm level: over every history from a fresh realm, a session that uses a request id for one call
+    (possibly a progressive call invocation in several chunks) reads at most one final reply for it -/
+def C02_realm_one_final_full : Prop :=
+  ∀ (cfg : Config) (r0 : Realm), Realm.create cfg = some r0 → ∀ (ops : List Realm.Op) (k : SessKey) (req : Nat),
+    OneCall (chunkFlags ops k req) → (finalsSeen (Ex.runObs r0 ops).1 k req).length ≤ 1
+
+/-- the history: callee 1 registers "p"; caller 2 opens the progressive call 7 to "p" (allowed); its last chunk names
+    "q" — the dealer would route it to the stored callee without looking at the URI, but the Authorizer denies it:
+    ERROR(CALL, 7, not_authorized) to the caller, the call stays pending; then the callee answers: RESULT(7). -/
+def Ex.opsDenied : List Realm.Op :=
+  [ .join 1 false [] [(RoleCallee, [FeatureCallCanceling, FeatureProgCallInvocations])] 8,
+    .join 2 false [] [(RoleCaller, [FeatureProgCallInvocations])] 8,
+    .msg 1 (.register 1 [] "p"),
+    .msg 2 (.call 7 [(OptProgress, .bool true)] "p" [] []),
+    .msg 2 (.call 7 [] "q" [] []),
+    .msg 1 (.yield 1 [] [.int 1] []) ]
+
+set_option maxRecDepth 100000 in
+/-- FALSE, of the model and (by reading realm.go `authzMessage` + dealer.go `syncCall`) of the router: the ERROR the
+    handler sends for a refused LATER CHUNK of a pending progressive call invocation is a final reply by its form, but
+    the call is not ended — its callee's answer is a second final reply for the same request.  (The dealer-level
+    statement `C02_episode` is not affected: the refused chunk never becomes a dealer step.) -/
+theorem C02_realm_one_final_full_fails : ¬ C02_realm_one_final_full := by
+  intro hfull
+  have hc : Realm.create Ex.cfgDenyQ = some ((Realm.create Ex.cfgDenyQ).getD default) := by
+    have : (Realm.create Ex.cfgDenyQ).isSome = true := by decide +kernel
+    cases h : Realm.create Ex.cfgDenyQ with
+    | none => rw [h] at this; cases this
+    | some r => rfl
+  have hflags : chunkFlags Ex.opsDenied 2 7 = [true, false] := by decide +kernel
+  have hone : OneCall (chunkFlags Ex.opsDenied 2 7) := by
+    rw [hflags]
+    intro i hi
+    have : i = 0 := by simp at hi; omega
+    subst this
+    rfl
+  have hseen : (finalsSeen (Ex.runObs ((Realm.create Ex.cfgDenyQ).getD default) Ex.opsDenied).1 2 7).map Msg.typeCode =
+      [8, 50] := by decide +kernel
+  have := hfull _ _ hc Ex.opsDenied 2 7 hone
+  have hlen := congrArg List.length hseen
+  simp only [List.length_map, List.length_cons, List.length_nil] at hlen
   omega
 
 end Nexus.C02
